@@ -98,6 +98,7 @@ type Path struct {
 	depth    int
 	pendingEscape interface{}
 	hostileBudget int
+	allocTerm     *Term
 	forgedFirst   int
 	hostileUsed   int
 	callBounds    map[string]int
